@@ -180,45 +180,18 @@ theorem bruteValue_transport_le (ps : List Perm) (hne : ps ≠ []) (sc fc : Nat)
   simp
 
 /-- the calculator's cost is the brute-force value -/
-theorem polyCompare_cost_eq_bruteValue (fixA : Bool) (p sc fc : Nat) (hp : p ≤ 4)
+theorem polyCompare_cost_eq_bruteValue (fixA : Bool) (p sc fc : Nat)
     (cols : List (List Nat × List Nat)) :
     (polyCompare fixA p sc fc cols).cost = bruteValue (perms p) sc fc cols := by
-  rw [polyCompare_cost_eq_full fixA p sc fc (perms_ne_nil p hp) (perms_length p hp) cols,
-    polyCompareFull_cost p sc fc (perms_ne_nil p hp) cols]
+  rw [polyCompare_cost_eq_full fixA p sc fc (perms_ne_nil p) (perms_length p) cols,
+    polyCompareFull_cost p sc fc (perms_ne_nil p) cols]
   rfl
 
-/-! ### finite facts about `perms p`, `p ≤ 4` -/
+/-! ### facts about `perms p` for every `p`: `Lemmas/C11Perms.lean` -/
 
-theorem perms_entries_lt (p : Nat) (hp : p ≤ 4) : ∀ σ ∈ perms p, ∀ x ∈ σ, x < p := by
-  match p, hp with
-  | 0, _ => decide
-  | 1, _ => decide
-  | 2, _ => decide
-  | 3, _ => decide
-  | 4, _ => decide
-
-theorem perms_perm_range (p : Nat) (hp : p ≤ 4) : ∀ υ ∈ perms p, υ.Perm (List.range p) := by
-  match p, hp with
-  | 0, _ => decide
-  | 1, _ => decide
-  | 2, _ => decide
-  | 3, _ => decide
-  | 4, _ => decide
-
-theorem perms_inverse (p : Nat) (hp : p ≤ 4) : ∀ τ ∈ perms p, ∃ ι ∈ perms p, IsInv p τ ι := by
-  match p, hp with
-  | 0, _ => decide
-  | 1, _ => decide
-  | 2, _ => decide
-  | 3, _ => decide
-  | 4, _ => decide
-
-theorem perms_comp (p : Nat) (hp : p ≤ 4) : ∀ υ ∈ perms p, ∀ σ ∈ perms p, relabel υ σ ∈ perms p := by
-  match p, hp with
-  | 0, _ => decide
-  | 1, _ => decide
-  | 2, _ => decide
-  | 3, _ => decide
-  | 4, _ => decide
+theorem perms_inverse (p : Nat) : ∀ τ ∈ perms p, ∃ ι ∈ perms p, IsInv p τ ι := by
+  intro τ hτ
+  obtain ⟨h1, h2, h3, h4⟩ := invPerm_spec p τ hτ
+  exact ⟨invPerm p τ, h1, h2, h3, h4⟩
 
 end WhVerif.C11
